@@ -1,16 +1,107 @@
-//! Suite C20 (stub — replaced when the property's harness is built).
+//! Suite C20: a persisted session restores losslessly and never rewinds counters.
 #![allow(dead_code, unused_imports)]
+use crate::mac::*;
+use crate::macgen::*;
+use crate::macsuites::*;
 use crate::util::*;
 
-pub fn eval(_op: &str) -> String {
-    "bad-op".into()
+pub fn eval(op: &str) -> String {
+    if op.split_whitespace().nth(1) == Some("doc") {
+        return eval_c20_doc(op);
+    }
+    let outs = run_history(op);
+    format!("{} ## oracle={}", outs.join(" ; "), oracle_c20(op, &outs))
 }
 
 pub fn expand(_op: &str) -> Vec<String> {
     vec![]
 }
 
-pub fn run(_tier: &str, _seed: u64, dir: &str) {
-    let sink = Sink::new(dir);
-    sink.finish(dir, "stub", false, serde_json::json!({}));
+fn mutate_doc(rng: &mut Rng, v: &mut serde_json::Value) {
+    use serde_json::json;
+    let n = 1 + rng.below(3);
+    for _ in 0..n {
+        let has_uplink = v.get("uplink").map(|u| u.is_object()).unwrap_or(false);
+        let pickn = rng.below(14);
+        if (5..=8).contains(&pickn) && !has_uplink {
+            continue;
+        }
+        match pickn {
+            0 => {
+                let keys: Vec<String> = v.as_object().unwrap().keys().cloned().collect();
+                if !keys.is_empty() {
+                    let k = rng.pick(&keys).clone();
+                    v.as_object_mut().unwrap().remove(&k);
+                }
+            }
+            1 => v["extra_field"] = json!(rng.next()),
+            2 => v["fcnt_up"] = rng.pick(&[json!(-1), json!(4294967296u64), json!("7"), json!(null), json!(4294967295u32), json!(1.5)]).clone(),
+            3 => v["fcnt_down"] = rng.pick(&[json!(null), json!(0), json!(4294967295u32), json!(4294967296u64), json!([1]), json!("x")]).clone(),
+            4 => v["adr_ack_cnt"] = rng.pick(&[json!(0), json!(4294967295u32), json!(-5), json!(null)]).clone(),
+            5 => v["uplink"]["pending_len"] = json!(rng.below(256)),
+            6 => {
+                let len = *rng.pick(&[0usize, 14, 15, 16, 30]);
+                v["uplink"]["pending_data"] = json!((0..len).map(|_| rng.next() as u8).collect::<Vec<u8>>());
+            }
+            7 => {
+                v["uplink"]["pending_data"] = json!((0..15).map(|_| rng.next() as u8).collect::<Vec<u8>>());
+                v["uplink"]["pending_len"] = json!(rng.below(16));
+            }
+            8 => v["uplink"]["confirmed"] = rng.pick(&[json!(1), json!("true"), json!(null), json!(true)]).clone(),
+            9 => v["confirmed"] = rng.pick(&[json!(0), json!(false), json!([true])]).clone(),
+            10 => v["nwkskey"] = rng.pick(&[json!([1, 2, 3]), json!(null), json!("00"), json!((0..17).collect::<Vec<u8>>())]).clone(),
+            11 => v["devaddr"] = rng.pick(&[json!([1, 2, 3, 4, 5]), json!(7), json!(null), json!([256, 0, 0, 0])]).clone(),
+            12 => v["uplink"] = rng.pick(&[json!(null), json!({}), json!([]), json!({"confirmed": true})]).clone(),
+            _ => {
+                v["fcnt_up"] = json!(rng.next() as u32);
+                v["adr_ack_cnt"] = json!(rng.next() as u32);
+            }
+        }
+    }
+}
+
+pub fn run(tier: &str, seed: u64, dir: &str) {
+    let mut rng = Rng::new(seed);
+    let mut sink = Sink::new(dir);
+    let thorough = tier == "thorough";
+    for region in REGIONS {
+        let n = if thorough { 1500 } else { 90 };
+        for i in 0..n {
+            let mut o = Opts::default();
+            o.steps = 4 + rng.below(8) as usize;
+            o.otaa_pct = 20;
+            o.counters = match i % 5 {
+                0 => Some((0xffff, Some(0xffff))),
+                1 => Some((0xffff_fffe, Some(0xffff_fff0))),
+                2 => Some((0, None)),
+                _ => None,
+            };
+            let op = gen_history("C20", &mut rng, region, &o);
+            // a snapshot/restore after every event
+            let (hd, evs) = split_events(&op);
+            let mut line = hd;
+            for e in evs {
+                line.push_str(" ; ");
+                line.push_str(&e);
+                if !e.starts_with("snap") {
+                    line.push_str(" ; persist");
+                }
+            }
+            sink.case(&line, &eval(&line), "persist-every-step", true);
+        }
+    }
+    // structurally mutated documents
+    let base = {
+        let s = lorawan_device::mac::Session::new(lorawan_device::NwkSKey::from(NWK_KEY), lorawan_device::AppSKey::from(APP_KEY), lorawan_device::DevAddr::from_value(DEVADDR));
+        serde_json::to_value(&s).unwrap()
+    };
+    let nd = if thorough { 20000 } else { 1500 };
+    for _ in 0..nd {
+        let mut v = base.clone();
+        mutate_doc(&mut rng, &mut v);
+        let doc = v.to_string();
+        let op = format!("C20 doc {} {}", rng.pick(&REGIONS), hex(doc.as_bytes()));
+        sink.case(&op, &eval(&op), "mutated-document", true);
+    }
+    sink.finish(dir, "MAC histories with a serialise/deserialise round trip of the session after every event (restored session must equal the original in every field and the run must continue exactly like the model's unsaved twin), starting counters at 16/32-bit boundaries, pending answers up to 15 bytes; plus structurally mutated JSON documents (type changes, missing/duplicate/extra fields, pending_len 0..255, arrays of 14/15/16, huge numbers): rejected, or accepted and then exercised without panic. Non-trivial = every case.", false, serde_json::json!({}));
 }
